@@ -32,7 +32,8 @@ ANCHORS = [
     "raggedshape.py::RaggedView2._calculate_lengths",
     "raggedshape.py::build_indices",
 ]
-FLOOR_TAGS = ["recv:fresh", "recv:lazyrows", "recv:lazycols+2", "recv:lazycols-1", "recv:lazychain", "recv:ufunc", "recv:astype", "mask-as-list", "r:int", "r:slice+1", "r:slice+k", "r:slice-", "r:list", "r:array", "r:mask", "r:ell",
+RECVS = ["fresh", "lazyrows", "lazycols+2", "lazycols-1", "lazychain", "ufunc", "astype", "deepcopy", "pickle", "copy-of-lazy", "readonly"]
+FLOOR_TAGS = ["recv:" + r_ for r_ in RECVS] + ["mask-as-list", "r:int", "r:slice+1", "r:slice+k", "r:slice-", "r:list", "r:array", "r:mask", "r:ell",
               "c:none", "c:int+", "c:int-", "c:slice+1", "c:slice+k", "c:slice-",
               "must-refuse", "sel-has-empty-row", "e-first", "e-last", "e-mid", "e-consec", "allempty", "norows"]
 FLOOR_MONITORS = ["c02:model-compare", "c02:refusal", "c02:arguments-unchanged"]
@@ -43,7 +44,6 @@ def setup(lib):
     contracts.attach(lib, which=("ragged",))
 
 
-RECVS = ["fresh", "lazyrows", "lazycols+2", "lazycols-1", "lazychain", "ufunc", "astype"]
 
 
 def mk_case(lens, rs, cs=None, has_cs=False, recv="fresh"):
@@ -61,6 +61,20 @@ def build_receiver(recv, flat, lens):
         return np.positive(base) if flat.dtype.kind != "b" else np.logical_or(base, False), None      # (x + 0 would turn -0.0 into 0.0)
     if recv == "astype":
         return RA(flat.copy(), list(lens)).astype(flat.dtype), None
+    if recv == "deepcopy":
+        import copy
+        return copy.deepcopy(RA(flat.copy(), list(lens))), None
+    if recv == "pickle":
+        import pickle
+        return pickle.loads(pickle.dumps(RA(flat.copy(), list(lens)))), None
+    if recv == "copy-of-lazy":      # a deep copy taken of an unmaterialised selection
+        import copy
+        lazy, parent = build_receiver("lazycols+2", flat, lens)
+        return copy.deepcopy(lazy), None
+    if recv == "readonly":          # the flat buffer handed to the constructor is not writable (reads must not need to write)
+        buf = flat.copy()
+        buf.setflags(write=False)
+        return RA(buf, list(lens)), None
     rows = gen.split_rows(flat, lens)
     jv = np.array([-7]).astype(flat.dtype)[0]   # wraps for unsigned, True for bool
     junk = lambda k: np.full(k, jv, dtype=flat.dtype)
@@ -180,10 +194,11 @@ def run(case):
 # ----------------------------------------------------------------------------- workloads
 
 def directed():
-    for c in _directed():
+    for k, c in enumerate(_directed()):
         yield c
-        for recv in RECVS[1:]:
-            yield dict(c, recv=recv)
+        for j, recv in enumerate(RECVS[1:]):
+            if j < 4 or (k + j) % 3 == 0:
+                yield dict(c, recv=recv)
 
 
 def _directed():
